@@ -6,12 +6,13 @@ import Nebula.Lemmas.HostMapInv
 namespace Nebula.HostMap
 open FMap
 
-theorem obj_set_ne (s : State) (h x : Nat) (o : Obj) (hx : x ≠ h) (t : State) (ho : t.objs = s.objs.set h o) :
-    t.obj x = s.obj x := by
-  simp [State.obj, ho, get_set, Ne.symm hx]
+theorem obj_set_ne (s : State) (h x : Nat) (o : Obj) (hx : x ≠ h) (t : State)
+    (ho : ∀ y, t.objs.get y = if h = y then some o else s.objs.get y) : t.obj x = s.obj x := by
+  simp [State.obj, ho, Ne.symm hx]
 
-theorem obj_set_eq (s : State) (h : Nat) (o : Obj) (t : State) (ho : t.objs = s.objs.set h o) : t.obj h = o := by
-  simp [State.obj, ho, get_set]
+theorem obj_set_eq (s : State) (h : Nat) (o : Obj) (t : State)
+    (ho : ∀ y, t.objs.get y = if h = y then some o else s.objs.get y) : t.obj h = o := by
+  simp [State.obj, ho]
 
 theorem hostList_congr {s t : State} (h1 : t.hosts = s.hosts) (h2 : t.more = s.more) (a : Nat) :
     hostList t a = hostList s a := by simp [hostList, h1, h2]
@@ -33,7 +34,7 @@ in `next` only.  The pending entries of `t` either come from `s` (for other tunn
 fit. -/
 theorem core_update {ex : Option Nat} {s t : State} (c : Core ex s) (h : Nat) (o : Obj)
     (hn : ¬ Live s h) (hex : some h ≠ ex)
-    (ho : t.objs = s.objs.set h o) (e1 : t.hosts = s.hosts) (e2 : t.more = s.more) (e3 : t.indexes = s.indexes)
+    (ho : ∀ y, t.objs.get y = if h = y then some o else s.objs.get y) (e1 : t.hosts = s.hosts) (e2 : t.more = s.more) (e3 : t.indexes = s.indexes)
     (e4 : t.rindexes = s.rindexes) (e5 : t.relays = s.relays)
     (hv : ∀ a x, t.vpnIps.get a = some x →
       if x = h then (o.addrs = [a] ∧ s.indexes.get o.lidx ≠ some h) else s.vpnIps.get a = some x)
@@ -95,7 +96,7 @@ theorem core_update {ex : Option Nat} {s t : State} (c : Core ex s) (h : Nat) (o
       exact ⟨p1, fun l => p2 ((liveKeep x hxh).mp l), p3⟩
   · intro x hx
     obtain ⟨p1, p2⟩ := hnx x hx
-    rw [ho, get_set]; simp [Ne.symm p2, c.fresh x p1]
+    rw [ho]; simp [Ne.symm p2, c.fresh x p1]
 
 /-! ### `HandshakeManager.unlockedDeleteHostInfo` -/
 
